@@ -45,9 +45,10 @@ PROPS = {
     "C04": {
         "scenarios": lambda tier, q: [
             {"name": "exec", "args": [exact(q("scope C04")), "600" if tier == "quick" else "6000"]},
+            {"name": "scalargrid", "args": [exact(q("scope C04"))]},
         ],
         "signature": sig_exec,
-        "rule": "every instruction of the C04 reference table (52 names), driven by NAME through InstructionSet, on generated states: operands from the boundary pools (i32 MIN/MAX/0/±1, ±0.0, subnormal, ±MAX, ±inf, NaN) and random, rich and sparse stacks; non-trivial = the state changed; distinct = distinct request lines",
+        "rule": "every instruction of the C04 reference table (52 names), driven by NAME through InstructionSet, on the full square of the boundary pools (16x16 integer pairs, 22x22 float pairs: MIN / -1, MIN % -1, x / 0, MAX + 1, inf - inf ... always met) and on generated states: operands from the boundary pools (i32 MIN/MAX/0/±1, ±0.0, subnormal, ±MAX, ±inf, NaN) and random, rich and sparse stacks; non-trivial = the state changed; distinct = distinct request lines",
         "assumptions": ["float results are pinned up to the opaque Float32 operation (same libm in the driver and in pushr)"],
     },
     "C05": {
@@ -103,7 +104,7 @@ PROPS = {
             {"name": "exec", "args": [exact(q("scope C08")), "150" if tier == "quick" else "1500"]},
         ],
         "signature": sig_exec,
-        "rule": "the 19 CODE list-surgery instructions by NAME on tree-rich states: top CODE item of depth <= 5 with every atom kind and nested lists before atoms, second / third items drawn as random points of the top item (so that POSITION / CONTAINS / CONTAINER / SUBST / MEMBER find matches) or at random, index in [-2S, 2S] plus i32::MIN/MAX; SIZE/EXTRACT/POSITION/CONTAINS/MEMBER/CONTAINER/... compared with the points-based statements, INSERT with the metamorphic INSERT->EXTRACT relation; non-trivial = the state changed",
+        "rule": "the 19 CODE list-surgery instructions by NAME on tree-rich states: top CODE item usually a non-empty list whose children are often lists themselves (depth <= 5, every atom kind, nested lists before atoms, empty lists), second / third items drawn as random points of the top item (so that POSITION / CONTAINS / CONTAINER / SUBST / MEMBER find matches), as the top item itself, as a print-alike of it or of one of its points (structurally different, same text), or at random, index in [-2S, 2S] plus i32::MIN/MAX; SIZE/EXTRACT/POSITION/CONTAINS/MEMBER/CONTAINER/... compared with the points-based statements, INSERT with the metamorphic INSERT->EXTRACT relation (index 0: the whole item), CONS / LIST / APPEND with atom conservation, CDR / CONS / CAR / = with their closed forms; non-trivial = the state changed",
         "assumptions": ["items are compared structurally; floats by IEEE ==, so a NaN-carrying item never matches (stated in equals_iff)"],
     },
     "C03": {
@@ -119,7 +120,7 @@ PROPS = {
             {"name": "roundtrip", "args": []},
         ],
         "signature": lambda req: "roundtrip",
-        "rule": "item trees over {list, int (boundary pool + random), bool, registered instruction, parser-producible and odd names} (exact class), the same plus floats incl. non-finite, subnormal and boundary values (print-parse-print class), arbitrary items, and trees emitted by CodeGenerator::random_code: Item::to_string compared with the model's print, the text parsed back by the real parser and by the model, parse(print t) = t resp. print(parse(print t)) = print t evaluated on the implementation's outcome; non-trivial = the item is in one of the two round-trip classes",
+        "rule": "item trees over {list, int (boundary pool + random), bool, registered instruction, parser-producible and odd names} (exact class), the same plus floats incl. non-finite, subnormal and boundary values (print-parse-print class), arbitrary items, and trees emitted by CodeGenerator::random_code: Item::to_string compared with the model's print, the text parsed back by the real parser and by the model, parse(print t) = t resp. print(parse(print t)) = print t evaluated on the implementation's own outcome (its reparse and its own print of the reparse); non-trivial = the item is in one of the two round-trip classes",
         "assumptions": ["FloatPrintStable (fmt3 (parse (fmt3 x)) = fmt3 x) and the white-space splitting of printed text are character-level facts about std formatting/parsing: hypotheses of the Lean theorem, validated on every generated tree by the correspondence check"],
     },
     "C09": {
@@ -138,7 +139,7 @@ PROPS = {
             {"name": "exec", "args": ["LIST.NEIGHBOR", "500" if tier == "quick" else "5000"]},
         ],
         "signature": lambda req: "topo" if req.startswith("( topo") else sig_exec(req),
-        "rule": "Topology::find_neighbors for every ntotal in 0..160 (thorough 0..700) x ndim in 0..4: every centre incl. ntotal and ntotal+1 and all 12 radii (0, lattice distances, midpoints between them, 1000, negative) for ntotal <= 27, sampled centres and radii beyond; perfect powers up to 4096 in 3..6 dimensions, dimensions up to 70, NaN / inf radius; answers compared with the model and with the set comprehension over the integer ceiling-root hypercube; the four LIST.NEIGHBOR* instructions by NAME on generated states with negative / oversized / NaN operands; non-trivial = a neighbourhood was returned",
+        "rule": "Topology::find_neighbors for every ntotal in 0..160 (thorough 0..700) x ndim in 0..4: every centre incl. ntotal and ntotal+1 and all 12 radii (0, lattice distances, midpoints between them, 1000, negative) for ntotal <= 27, sampled centres and radii beyond; perfect powers up to 4096 in 3..6 dimensions, dimensions up to 70, NaN / inf radius; ntotal = 2^20+1 (one past a perfect 2nd/4th/5th/10th/20th power, where the f32 root estimate loses the +1) in 2 and 20 dimensions (thorough: all five, and 7^8+1, 51^4+1, 2^24+1, 2^24, 2^20, 2^20-1); answers compared with the model and with the set comprehension over the integer ceiling-root hypercube; the four LIST.NEIGHBOR* instructions by NAME on generated states with negative / oversized / NaN operands; non-trivial = a neighbourhood was returned",
         "exhaustive": True,
         "assumptions": ["the f32 radius test sqrt(d^2) <= r is taken as the meaning of 'within the Euclidean radius' (squared distances below 2^24 are exact in f32; sqrt is correctly rounded)", "a NaN radius is not a radius: the centre-membership statement is required only when the test accepts distance 0"],
     },
@@ -190,7 +191,7 @@ PROPS = {
         "release_pass": True,
         "release_compare": ["run", "stkgrid"],
         "signature": lambda req: req.split(" ")[1],
-        "rule": "RAND-free, id-free programs on generated states: run, an unrelated run (touching the RNG and the node counter), run again, then 2/4/8/16 threads released from a barrier each running the same program on its own copy of the state; all final states must coincide and equal the model's run; 2/8/16 threads creating 20000 (thorough 100000) nodes each through Graph::add_node and GRAPH.NODE*ADD: ids pairwise distinct; the pushr binary on 60 (thorough 400) terminating programs: last printed EXEC / CODE / INT stacks against the model; source inventory of process-global mutable state and randomness sources; thorough: the run and stack-grid scenarios in a debug and an optimised build must produce identical lines; non-trivial = every case",
+        "rule": "RAND-free, id-free programs on generated states: run, an unrelated run (touching the RNG and the node counter), run again, then 2/4/8/16 threads released from a barrier each running the same program on its own copy of the state; all final states must coincide and equal the model's run; history independence per instruction: every RAND-free, id-free instruction (24, thorough 120 states each; six times as many, with well-formed operands, for the computation-heavy size-operand instructions) run on a fresh thread, then on this thread after six runs of the SAME instruction on perturbed operands (a cache keyed by part of the operands would be warm), then on another fresh thread; 2/8/16 threads creating 20000 (thorough 100000) nodes each through Graph::add_node and GRAPH.NODE*ADD: ids pairwise distinct; the pushr binary on 60 (thorough 400) terminating programs: last printed EXEC / CODE / INT stacks against the model; source inventory of process-global mutable state and randomness sources; thorough: the run and stack-grid scenarios in a debug and an optimised build must produce identical lines; non-trivial = every case",
         "assumptions": ["interleavings inside a step are excluded by Rust's ownership rules (each thread owns its PushState), not by the model; schedules are those the OS produces", "the only process-global mutable state is the atomic node counter with a single fetch_add site (checked by the source inventory on every run)"],
     },
     "C15": {
@@ -231,7 +232,7 @@ PROPS = {
             {"name": "stack-exh", "args": []},
         ],
         "signature": sig_stackop,
-        "rule": "random operation sequences (<=120 ops quick, <=200 thorough) over all 21 public PushStack methods with positions in [0,len+2], int and nested-Item elements, plus every sequence of length <=3 (quick) / <=4 (thorough) over a reduced alphabet; a transition is non-trivial when it returned a value or changed the stack; distinct = distinct (pre, op, args) request lines",
+        "rule": "random operation sequences (<=120 ops quick, <=200 thorough) over all 21 public PushStack methods with positions in [0,len+2], int and nested-Item elements (equal_at / last_eq probed half of the time with the element that is there or with one that only PRINTS like it: name spelled like an integer / boolean / instruction, float differing beyond the printed decimals), plus every sequence of length <=3 (quick) / <=4 (thorough) over a reduced alphabet; a transition is non-trivial when it returned a value or changed the stack; distinct = distinct (pre, op, args) request lines",
         "exhaustive": False,
         "assumptions": ["swap(i, j) takes raw vector indices and is outside the property's list of operations"],
     },
